@@ -1471,10 +1471,11 @@ def _blocks(text):
         if ln.startswith('-- ≙ gfpx.py:'):
             cur = None           # the line number may move without any change of the function
             continue
-        if (ln.startswith('def ') or ln.startswith('/-- NOT TRANSLATED')) and ' ' in ln[4:]:
-            if ln.startswith('def '):
-                cur = ln[4:].split()[0].split('.')[0]
-                out.setdefault(cur, [])
+        if ln.startswith('/-- NOT TRANSLATED'):
+            cur = None
+        if ln.startswith('def ') and ' ' in ln[4:]:
+            cur = ln[4:].split()[0].split('.')[0]
+            out.setdefault(cur, [])
         if ln.startswith('end MpycV.'):
             cur = None
         if cur is not None:
